@@ -13,7 +13,10 @@ RULE = ("relayloop: scripted header schedules (gaps, repeats, lower heads, heads
         "before it is recorded; 1.5 s and 6 s after the broadcast was answered, i.e. during the loop's sleep before DB.Put; "
         "after DB.Put) and between iterations, restart on the same LevelDB directory; one schedule in three has LARGE distances between "
         "cursor and confirmed head (pre-seeded cursor far behind the first header, header gaps/bursts, long runs of failed queries: "
-        "10^3..10^5 blocks, events placed just beyond cursor + 1000/2000/5000/10000 and on the last confirmed block); non-trivial = distinct schedule "
+        "10^3..10^5 blocks, events placed just beyond cursor + 1000/2000/5000/10000 and on the last confirmed block); one in four has ONE "
+        "range with 25-70 events, several per block, laid out so that every multiple of 10/16/20/25/32/50 events falls inside a block, "
+        "killed on / after the k-th broadcast or right after the k-th cursor write of the iteration (k = 1..4; the child reacts to however "
+        "many broadcasts and LevelDB writes the loop under test performs per iteration), restarted and continued; non-trivial = distinct schedule "
         "(every schedule has at least 4 header deliveries that reach the log query)")
 TRUSTED_BASE = [
     "Lean 4.33.0 kernel; axioms propext, Classical.choice, Quot.sound (audited per theorem on every run)",
@@ -43,7 +46,9 @@ MANIFEST = {
     "text": "Lean 4 theorems over a step-function model of the scanning loop, for every header schedule, query-failure pattern "
             "and crash point (induction over arbitrary input lists): submitted ranges are >= 50 blocks behind the newest header, "
             "queries are contiguous, the cursor is written only after the range was handled, no block between the first scanned "
-            "block and the persisted cursor is skipped across crashes.  Tied to the source by regenerated facts about "
+            "block and the persisted cursor is skipped across crashes; restated per bridge event for every placement of events in "
+            "blocks (raw_trace_admissible, raw_gap_free) in an alphabet that allows several broadcasts and several cursor writes per "
+            "iteration: a cursor write is admissible only if every event in the blocks below it was broadcast before.  Tied to the source by regenerated facts about "
             "EthereumSub.Start (decide obligations) and by trace equality with the REAL Start goroutine run against in-process "
             "fake Ethereum/Tendermint endpoints with scripted kills and restarts on the same LevelDB.",
     "note": "Trusted: Lean kernel (+propext, Classical.choice, Quot.sound); the hand-written model, tied by facts + L3 traces; "
